@@ -419,6 +419,15 @@ def after_dis(which):
         n = P.nz()
         a, b = z3.Ints("ed_a ed_b")
         inr = z3.And(0 <= a, a < n, 0 <= b, b < n)
+        if which == ROOT:
+            # "rooted at the soma (or first point)": row 0 of the cloud the loop works on - the root of the tree - has the coordinates of the soma ARGUMENT, as real
+            # numbers and whatever the dtypes of soma and cloud (a conversion that changes the value - a fractional soma pushed into an integer dtype - breaks it).
+            # Emitted under the name and kind of the clause over the RETURNED tree (`returned-tree/...`, proved at the exit from the map sg); here the context
+            # is straight-line code, so a wrong root is answered with a counter-model.
+            goal = z3.simplify(z3.And(n >= 1, *[z3.Select(P.cols[c], z3.IntVal(0)) == _in_point(o, c, z3.IntVal(0)) for c in range(3)]))
+            E.prove(f"{FN}/returned-tree/{ROOT}", goal, "postcondition",
+                    "row 0 of the cloud the loop works on = the soma argument (the first input point when no soma is given), coordinate by coordinate, as real numbers")
+            return goal
         if which == "the-cloud-is-the-soma-followed-by-every-input-point-in-input-order":
             # first clause of the property ("contains every input point exactly once, plus the given soma"), stated where the cloud the loop works on is
             # complete: whatever the carrier did to the input before (dropping, deduplicating, re-ordering, stacking rows), the rows handed to the loop are
@@ -487,7 +496,8 @@ def cloud_is_input(P, o):
     return z3.And(*conj)
 
 
-AFTER_DIS = ["the-cloud-is-the-soma-followed-by-every-input-point-in-input-order", "an-n-by-n-matrix", "every-entry-is-the-euclidean-distance-of-the-two-points", "computed-without-cancellation-of-rounded-operands",
+ROOT = "the-root-is-at-the-soma-as-given-or-at-the-first-input-point"
+AFTER_DIS = [ROOT, "the-cloud-is-the-soma-followed-by-every-input-point-in-input-order", "an-n-by-n-matrix", "every-entry-is-the-euclidean-distance-of-the-two-points", "computed-without-cancellation-of-rounded-operands",
              "renamed-to-the-abstract-distance-function"]
 
 
@@ -694,6 +704,10 @@ def ret_post(which):
             return z3.And(*conj)
         if which == "single-root-is-the-soma-or-first-point":
             return z3.And(z3.ForAll([k], z3.Implies(rng(k), (r.col("pid", k) == -1) == (r.sg(k) == 0))), z3.Implies(z3.BoolVal(r.sorted), r.sg(z3.IntVal(0)) == 0))
+        if which == ROOT:
+            # the row without a parent sits exactly where the soma argument is (where the first input point is when no soma is given): the coordinates of the
+            # ARGUMENT as real numbers, for every dtype of cloud and soma
+            return z3.ForAll([k], z3.Implies(z3.And(rng(k), r.col("pid", k) == -1), z3.And(*[r.col("xyz"[c], k) == _in_point(o, c, z3.IntVal(0)) for c in range(3)])))
         if which == "parent-relation-is-the-greedy-attachments":
             # the parent id stored in row k is the id of the row that shows the input point to which the loop attached k's point
             return z3.ForAll([k], z3.Implies(z3.And(rng(k), r.sg(k) != 0), r.col("pid", k) == r.col("id", r.iv(s.Pid(r.sg(k))))))
@@ -721,7 +735,7 @@ def ret_post(which):
 
 # the three clauses that the (fixed) defect touched come last (a failed clause is assumed afterwards, it would mask the later ones)
 RET_POSTS = ["rows-correspond-one-to-one-to-the-input-points-plus-soma", "every-row-carries-the-position-of-its-input-point-radius-1-type-soma-or-glia",
-             "single-root-is-the-soma-or-first-point", "parent-relation-is-the-greedy-attachments", "no-non-exempt-node-has-more-than-K-children",
+             "single-root-is-the-soma-or-first-point", ROOT, "parent-relation-is-the-greedy-attachments", "no-non-exempt-node-has-more-than-K-children",
              "a-Tree-with-exactly-the-seven-named-columns-of-n-rows-sharing-nothing-with-the-inputs", "ids-are-the-row-numbers",
              "sorted-result-has-root-0-and-parents-before-children"]
 
@@ -760,7 +774,9 @@ POSTS = ["every-point-is-connected", "parent-table-is-a-tree-rooted-at-0", "rows
          "transform-object-unchanged"]
 
 
-def call_setup(soma_given, names_given=False):
+def call_setup(soma_given, names_given=False, dtype="float64"):
+    """dtype: the numpy dtype of the cloud (an integer dtype: integer coordinates - voxel positions, `np.argwhere` style); the soma is a vector of three ARBITRARY
+    reals in every variant (a float64 array / a list of python floats: the centre of mass of a voxel mask has a fractional part)"""
     def f(S):
         from swcgeom.core.swc_utils import SWCNames, get_names, get_types
         from swcgeom.transforms.mst import PointsToCuntzMST
@@ -770,7 +786,7 @@ def call_setup(soma_given, names_given=False):
         me.frozen = True
         n0 = S.int("n_points")
         S.assume(n0.z >= (0 if soma_given else 1))
-        pts = X.Points.fresh(n0.z)
+        pts = X.typed_cloud(S, n0.z, dtype)
         soma = NArr((3,), [S.real("soma_" + c) for c in "xyz"], "real") if soma_given else None
         if soma is not None:
             soma.frozen = True
@@ -796,6 +812,15 @@ def pre(which):
             return z3.And(0 <= bf, bf <= 1)
         if which == "branching-limit-is-minus-one-or-positive":
             return z3.Or(K == -1, K >= 1)
+        if which == "integer-coordinates-are-exactly-representable-in-float64":
+            # a cloud of an integer dtype meets float64 numbers (the soma, the distances): its coordinates are taken to be integers of magnitude <= 2**53,
+            # which float64 represents exactly (int32 / uint16 ... clouds satisfy this by their dtype); vacuous for float clouds
+            P = v["points"]
+            if not isinstance(P, X.Points) or P.dtype.kind not in "iu":
+                return z3.BoolVal(True)
+            a = z3.Int("pre_a")
+            lim = 2 ** 53
+            return z3.And(*[z3.ForAll([a], z3.Implies(z3.And(0 <= a, a < P.nz()), z3.And(z3.Select(c, a) >= -lim, z3.Select(c, a) <= lim)), patterns=[z3.Select(c, a)]) for c in P.cols])
         raise KeyError(which)
 
     return f
@@ -813,8 +838,13 @@ def register(R: Registry):
     R.add(
         f"{MST}:PointsToCuntzMST.__call__",
         prop="C17",
-        variants={"soma=None": call_setup(False), "soma given": call_setup(True), "soma=None, names= given (deprecated keyword)": call_setup(False, True)},
-        requires=[("bf-in-unit-interval", pre("bf-in-unit-interval")), ("branching-limit-is-minus-one-or-positive", pre("branching-limit-is-minus-one-or-positive"))],
+        variants={"soma=None": call_setup(False), "soma given": call_setup(True), "soma=None, names= given (deprecated keyword)": call_setup(False, True),
+                  # the dtype of the cloud is part of the input space: where the code converts (np.array / np.asarray / astype / the promotion of np.concatenate) the
+                  # cast model decides what becomes of the values; the clauses are the same for every dtype (coordinates of the ARGUMENTS as real numbers)
+                  "soma given, float32 cloud": call_setup(True, dtype="float32"), "soma given, int64 cloud": call_setup(True, dtype="int64"),
+                  "soma given, int32 cloud": call_setup(True, dtype="int32"), "soma=None, int64 cloud": call_setup(False, dtype="int64")},
+        requires=[("bf-in-unit-interval", pre("bf-in-unit-interval")), ("branching-limit-is-minus-one-or-positive", pre("branching-limit-is-minus-one-or-positive")),
+                  ("integer-coordinates-are-exactly-representable-in-float64", pre("integer-coordinates-are-exactly-representable-in-float64"))],
         ensures=[(p, post(p.split("/")[-1])) for p in POSTS] + [("returned-tree/" + p, ret_post(p)) for p in RET_POSTS],
         loops={0: dict(invariant=[(x, inv(x)) for x in INVS], modifies=["g_pos", "g_perm", "g_crank", "g_kid", "g_depth", "g_nk"])},
         options=dict(
